@@ -36,6 +36,9 @@ func (c *Ctx) execCall(fr *Frame, st *State, x *ssa.Call) (*Val, []*exitInfo) {
 	}
 	// dynamic call through a function value
 	fv := c.val(fr, st, cc.Value)
+	if name := funcValueName(cc.Value); name != "" && fr == c.topFrame {
+		c.atDynCallAsserts(fr, st, x, name, args)
+	}
 	if ci := c.closures[fv.Term]; ci != nil && c.prog.isLogg(ci.fn) && fr.depth < maxInlineDepth {
 		return c.inlineClosure(fr, st, x, ci, args, rt)
 	}
@@ -565,6 +568,46 @@ func (c *Ctx) atCallAsserts(fr *Frame, st *State, site ssa.Instruction, callee *
 		}
 		g := env.evalTop(a.Clause)
 		c.oblige("assert", fmt.Sprintf("%s#at-call[%s].assert[%s]", c.relName(top.fn), c.relName(callee), lbl(a.Clause)), a.Clause.Label, a.Clause.Props, g.Term, site.Pos(), a.Clause.Src)
+		c.atCallSeen[a] = true
+	}
+}
+
+// funcValueName: the parameter or local variable a called function value is read from ("" if neither).
+func funcValueName(v ssa.Value) string {
+	switch x := v.(type) {
+	case *ssa.Parameter:
+		return x.Name()
+	case *ssa.UnOp:
+		if al, ok := x.X.(*ssa.Alloc); ok && x.Op == token.MUL {
+			return al.Comment
+		}
+	}
+	return ""
+}
+
+// atDynCallAsserts checks "at call <name> assert e" clauses where <name> is a function-typed parameter or local
+// of the function under verification: e is evaluated at every call through it (callee.a0, callee.a1, ... are
+// the arguments).
+func (c *Ctx) atDynCallAsserts(fr *Frame, st *State, site ssa.Instruction, name string, args []*Val) {
+	top := c.topFrame
+	if top == nil || top.con == nil || c.pure > 0 || c.dry > 0 {
+		return
+	}
+	for _, a := range top.con.Asserts {
+		if a.Where != "call "+name || a.Effect != nil {
+			continue
+		}
+		env := &Env{c: c, fr: top, fn: top.fn, st: st, old: top.old, vars: map[string]*Val{}, fd: top.fd, cells: true}
+		for i, p := range top.fn.Params {
+			if i < len(top.params) {
+				env.vars["old:"+p.Name()] = top.params[i]
+			}
+		}
+		for i, v := range args {
+			env.vars[fmt.Sprintf("callee.a%d", i)] = v
+		}
+		g := env.evalTop(a.Clause)
+		c.oblige("assert", fmt.Sprintf("%s#at-call[%s].assert[%s]", c.relName(top.fn), name, lbl(a.Clause)), a.Clause.Label, a.Clause.Props, g.Term, site.Pos(), a.Clause.Src)
 		c.atCallSeen[a] = true
 	}
 }
@@ -1258,6 +1301,16 @@ func (c *Ctx) ptrLocs(p *Ptr) []loc {
 	return out
 }
 
+// localGhost: "local.NAME" is a ghost integer that belongs to one activation of the function under
+// verification (a register of its frame): callees cannot touch it, nested activations have their own.
+func (e *Env) localGhost(name string) *Ptr {
+	fr := e.c.topFrame
+	if fr == nil {
+		fr = e.fr
+	}
+	return &Ptr{Reg: &regKey{frame: fr.id, extra: "local." + name}, Elem: types.Typ[types.Int]}
+}
+
 // lvalue evaluates an expression to a location.
 func (e *Env) lvalue(x ast.Expr) *Ptr {
 	c := e.c
@@ -1277,6 +1330,9 @@ func (e *Env) lvalue(x ast.Expr) *Ptr {
 		}
 		return nil
 	case *ast.SelectorExpr:
+		if id, ok := n.X.(*ast.Ident); ok && id.Name == "local" {
+			return e.localGhost(n.Sel.Name)
+		}
 		// field of pointer / global struct
 		var bp *Ptr
 		if id, ok := n.X.(*ast.Ident); ok {
